@@ -56,6 +56,28 @@ def mutate_tree(rng, tree):
         return rng.choice([{}, [], None, 5, 'x', {'types': []}, [[]], {'fingerprint': 'v_e'},
                            dict.fromkeys(('types', 'attrs', 'effects', 'buff_templates'), [])])
     keys = ['types', 'attrs', 'effects', 'buff_templates', 'fingerprint']
+    if rng.random() < 0.12:
+        # a record nested anywhere below an entity row loses its tail (or gains an element)
+        nested = []
+
+        def walk(x, depth):
+            if isinstance(x, list):
+                if depth >= 3 and x:
+                    nested.append(x)
+                for y in x:
+                    walk(y, depth + 1)
+            elif isinstance(x, dict):
+                for y in x.values():
+                    walk(y, depth + 1)
+        for e in ('types', 'attrs', 'effects', 'buff_templates'):
+            walk(t.get(e), 1)
+        if nested:
+            x = rng.choice(nested)
+            if rng.random() < 0.85:
+                del x[rng.randrange(len(x)):]
+            else:
+                x.append(junk(rng))
+            return t
     if k < 0.18:
         del t[rng.choice(keys)]
         return t
@@ -159,6 +181,28 @@ def py_distinct(xs):
     return len(out)
 
 
+def incomplete_record(tree):
+    """the fixed-arity records of the cache format: a type row's (attribute, value), (ability, (cooldown,
+    charges)) and (skill, level) pairs. A payload in which one of them lost an element is damaged - whatever
+    is served for it was not in the file"""
+    rows = tree.get('types')
+    if not isinstance(rows, list):
+        return None
+    for row in rows:
+        if not isinstance(row, list) or len(row) < 8:
+            continue
+        for j in (3, 6, 7):
+            if not isinstance(row[j], list):
+                continue
+            for rec in row[j]:
+                if isinstance(rec, list) and len(rec) < 2:
+                    return 'the record %r of type row %r is incomplete' % (rec, row[0])
+                if j == 6 and isinstance(rec, list) and len(rec) >= 2 and isinstance(rec[1], list) \
+                        and len(rec[1]) < 2:
+                    return 'the ability record %r of type row %r is incomplete' % (rec, row[0])
+    return None
+
+
 def oracle(case, obs, full_view):
     """C16 on the implementation alone: no raise; empty with no fingerprint, or
     complete under the file's fingerprint."""
@@ -189,6 +233,9 @@ def oracle(case, obs, full_view):
         return 'fingerprint %r from a payload that is not a dict' % (v['fp'],)
     if cl.canon(tree.get('fingerprint')) != v['fp']:
         return 'fingerprint %r is not the payload\'s %r' % (v['fp'], tree.get('fingerprint'))
+    why = incomplete_record(tree)
+    if why:
+        return 'fingerprint %r set and data served although %s' % (v['fp'], why)
     for key, kind in (('types', 'types'), ('attrs', 'attrs'), ('effects', 'effects')):
         if key not in tree:
             return 'fingerprint set although %r is missing' % key
